@@ -161,6 +161,26 @@ def check_circuit(c, tree, st, viol, witness, dup_labels=False, do_fit=False, fk
             bad("C16/circuitikz-names", f"diagram labels {comps[:6]} expected {exp[:6]}")
     except Exception as ex:
         st["circuitikz_refused"] = st.get("circuitikz_refused", 0) + 1
+    # (d') the same with a caller-supplied custom_labels dict covering SOME elements, re-used for a second diagram with
+    # running identifiers: the remaining elements must be named by the identifiers of THAT call
+    try:
+        tops = c.get_elements(recursive=True)
+        if len(tops) >= 2 and not fkey:
+            custom = {e: f"X{i}" for i, e in enumerate(tops[: max(1, len(tops) // 2)])}
+            snapshot = dict(custom)
+            for running in (False, True):
+                src = c.to_circuitikz(custom_labels=custom, running=running)
+                ids2 = c.generate_element_identifiers(running=running)
+                exp = sorted(custom[e] if e in snapshot else f"{e.get_symbol()}_{{\\rm {e.get_label() or ids2[e]}}}" for e in tops)
+                got = sorted(l for _, l in c20.COMP.findall(src))
+                st["circuitikz_custom"] = st.get("circuitikz_custom", 0) + 1
+                if got != exp:
+                    bad("C16/circuitikz-names-with-custom-labels", f"running={running}: diagram labels {got[:6]} expected {exp[:6]}")
+                    break
+            if len(custom) != len(snapshot):
+                bad("C16/custom-labels-dict-modified", f"the caller's custom_labels dictionary grew from {len(snapshot)} to {len(custom)} entries")
+    except Exception as ex:
+        st["circuitikz_refused"] = st.get("circuitikz_refused", 0) + 1
     # (c) fitted-parameter table
     if do_fit:
         _check_fit(c, st, bad)
